@@ -138,6 +138,16 @@ class Analysis(object):
         l, op, r = c
         if r is None:
             return st
+        # a comparison evaluated in 32-bit arithmetic says nothing about the mathematical values if a side can wrap:
+        # two variable terms of the same sign added in an int/int32_t expression (at + n > count with n unbounded)
+        for side in (l, r):
+            sc = strip_casts(side)
+            ln = linear(side)
+            if ln is not None and sc.k == "bin" and (sc.t or "") in ("int", "int32_t", "unsigned int", "uint32_t"):
+                pos = [k for k, v in ln[0].items() if v > 0]
+                neg = [k for k, v in ln[0].items() if v < 0]
+                if len(pos) >= 2 or len(neg) >= 2:
+                    return st
         add = []
         if op == "==":
             for o in ("<=", ">="):
